@@ -64,6 +64,19 @@ func TestVerifC19SoundnessSum(t *testing.T) {
 		c := cases[i]
 		r := lib.NewRng(fmt.Sprintf("c19/wb/sum/%d/%d", c.max, c.n), c.k)
 		ctx := r.Bytes(r.Intn(20))
+		if c.max >= 1<<63 {
+			lib.Count("sum-64-bit-bound-probed")
+		}
+		// the public constructor decides whether the bound is admitted at all;
+		// the wrapper below is only built for bounds it accepts
+		if _, err := New(c.n, c.max, ctx); err != nil {
+			if c.max >= 1<<63 {
+				lib.Count("sum.New-rejects-64-bit-bound")
+				return
+			}
+			lib.Violation("C19:constructor-rejects-admissible:sum.New", vc19Mon, lib.D("max", fmt.Sprint(c.max), "err", err))
+			return
+		}
 		f, err := newFlpSum(c.max)
 		if err != nil {
 			if c.max >= 1<<63 {
@@ -83,7 +96,6 @@ func TestVerifC19SoundnessSum(t *testing.T) {
 		base := vc19Meas(r, c.max)
 		var key func(string) (string, map[string]any)
 		if c.max >= 1<<63 {
-			lib.Count("sum-64-bit-bound-probed")
 			key = func(class string) (string, map[string]any) {
 				if class != "out-of-range-wraps-mod-p" {
 					return "", nil
